@@ -266,6 +266,8 @@ impl Exprs {
             E::Str(vec![SP::Lit("{n}".into())]),
             E::Str(vec![SP::Lit("a}b".into())]),
             E::Str(vec![SP::Lit("q\"uo\\te\n\ttab".into())]),
+            E::Str(vec![SP::Lit("a\n".into()), SP::Var("n".into())]),
+            E::Str(vec![SP::Var("s".into()), SP::Lit("\t\"".into()), SP::Var("m".into()), SP::Lit("\\{".into())]),
             E::Str(vec![SP::Lit("é".into()), SP::Var("s".into()), SP::Lit("😆".into())]),
         ]);
         let slice_i = g(vec![num("0"), num("1"), E::Neg(Box::new(num("1"))), num("0.5"), num("10"), E::Neg(Box::new(num("10")))]);
